@@ -43,7 +43,7 @@ class Cust:
 def in_domain(S):
     if S.get("exact") or S.get("cct") or S.get("preempt") and any(S["preempt"]) or any(S["ps"]) or S.get("spf"):
         return False
-    if S.get("mode") != "cont" or len(S["plan"]) != 1 or S["plan"][0][0] != "time":
+    if S.get("f5"):
         return False
     for s in S["servers"]:
         if s["k"] not in ("int", "inf") or (s["k"] == "int" and s["c"] < 1):
@@ -64,7 +64,7 @@ def in_domain(S):
         if S.get(key):
             for c in S[key]:
                 for t in S[key][c]:
-                    if t is not None and ("vals" in t or t.get("fam") != "cont" or "bad_at" in t):
+                    if t is not None and ("vals" in t or t.get("fam") not in ("cont", "lat") or "bad_at" in t or t.get("ints")):
                         return False
     return True
 
@@ -111,7 +111,13 @@ class RefSim:
         if vals is None or i >= len(vals):
             raise OutOfModel("tape %r exhausted at %d" % (key, i))
         self.pos[key] = i + 1
-        return vals[i]
+        v = vals[i]
+        if isinstance(v, tuple):          # lattice tape: (k, q, tdep, ends_for_ever) evaluated at the current time
+            k, q, tdep, ended = v
+            if tdep:
+                k += int(self.t) % tdep
+            v = INF if ended else k / q
+        return v
 
     def draw(self, site):
         def f():
@@ -340,6 +346,63 @@ class RefSim:
         return self
 
 
+class NotEnabled(Exception):
+    def __init__(self, prop, clause, msg):
+        Exception.__init__(self, msg)
+        self.prop, self.clause, self.msg = prop, clause, msg
+
+
+def _replay(self, events):
+    """Trace refinement: the engine's sequence of B-events must be a valid run of the model under SOME resolution of ties.
+    Each engine event must be due in the model at exactly that time, and no model event may be due earlier."""
+    nxt = {}
+    self.t = 0.0
+    for cls in self.S["classes"]:
+        for j in range(1, self.n + 1):
+            if self.S["arr"][cls][j - 1] is not None:
+                nxt[(j, cls)] = self.tape("arr", j, cls)
+    for t, nid, ty, info, who in events:
+        due, what = INF, None
+        for key, d in nxt.items():
+            if d < due:
+                due, what = d, ("arrival", key)
+        for j, lst in self.nodes.items():
+            finite = not isinf(self.c(j))
+            for c in lst:
+                if c.in_service and not c.blocked and c.end < due:
+                    due, what = c.end, ("end_service", j, c.id)
+                if finite and not c.in_service and c.ren < due:
+                    due, what = c.ren, ("renege", j, c.id)
+        if due < t:
+            prop = {"arrival": "C10", "end_service": "C10", "renege": "C13"}[what[0]]
+            raise NotEnabled(prop, "ref-due-event-skipped", "the engine executes %s at node %s at t=%r although %r has been due since %r" % (ty, nid, t, what, due))
+        self.t = t
+        if ty == "arrival":
+            j, cls = info
+            if nxt.get((j, cls)) != t:
+                raise NotEnabled("C10", "ref-arrival-not-due", "arrival of stream %r executed at %r, due at %r by the sum of its samples" % (info, t, nxt.get((j, cls))))
+            self.arrival(j, cls)
+            nxt[(j, cls)] = nxt[(j, cls)] + self.tape("arr", j, cls)
+        elif ty == "end_service":
+            c = next((x for x in self.nodes[nid] if x.id == who), None)
+            if c is None or not c.in_service or c.blocked or c.end != t:
+                raise NotEnabled("C10", "ref-service-end-not-due", "end of service of ind %s at node %s executed at %r; model: %s" % (
+                    who, nid, t, "not there" if c is None else "in_service=%s blocked=%s end=%r" % (c.in_service, c.blocked, c.end)))
+            self.end_service(nid, c)
+        elif ty == "renege":
+            c = next((x for x in self.nodes[nid] if x.id == who), None)
+            if c is None or c.in_service or c.ren != t:
+                raise NotEnabled("C13", "ref-renege-not-due", "renege of ind %s at node %s executed at %r; model: %s" % (
+                    who, nid, t, "not there" if c is None else "in_service=%s reneging date %r" % (c.in_service, c.ren)))
+            self.renege(nid, c)
+        else:
+            raise OutOfModel("event type %s" % ty)
+    return self
+
+
+RefSim.replay = _replay
+
+
 FIELDS = [
     # (reference key, record attribute, property, clause)
     ("type", "record_type", None, None),
@@ -356,27 +419,43 @@ FIELDS = [
 
 
 class Ref(Oracle):
-    """Refinement oracle: the engine's records must equal the reference model's, field by field."""
+    """Refinement oracle: the engine's event sequence must be a valid run of the reference model, and the engine's
+    records must equal the model's, field by field."""
     prop = "REF"
 
     def __init__(self, R):
         Oracle.__init__(self, R)
-        self.last_t = None
-        self.tie = False
         self.domain = in_domain(R.S)
+        self.events = []
+        self.done = False
 
-    def before(self, node):
-        if self.last_t is not None and self.R.t == self.last_t:
-            self.tie = True
-        self.last_t = self.R.t
+    def after(self, node, nxt):
+        if not self.domain:
+            return
+        R = self.R
+        who = None
+        if R.ev_type == "end_service":
+            for ev in R.log.micro[R.micro_from:]:
+                if ev[2] == "blk" and ev[3] == R.ev_nid:
+                    who = ev[5]
+                    break
+                if ev[2] == "rel" and ev[3] == R.ev_nid:
+                    who = ev[5]
+                    break
+        elif R.ev_type == "renege":
+            for ev in R.log.micro[R.micro_from:]:
+                if ev[2] == "ren":
+                    who = ev[5]
+                    break
+        self.events.append((R.t, R.ev_nid, R.ev_type, R.ev_info, who))
 
     def segment_end(self, op):
         R = self.R
-        if not self.domain or op[0] != "time":
+        if not self.domain or self.done:
             return
-        if self.tie:
-            R.counts["REF:skipped_tie"] += 1
+        if op[0] != "cap" and R.seg < len(R.S["plan"]):
             return
+        self.done = True
         S = R.S
         import random
         tapes = {}
@@ -392,19 +471,26 @@ class Ref(Oracle):
                             vals = [rng.uniform(t["lo"], t["hi"]) for _ in range(n)]
                         elif t["fam"] == "int":
                             vals = [rng.randint(t["kmin"], t["kmax"]) for _ in range(n)]
+                        elif t["fam"] == "lat":
+                            vals = [(rng.randint(t["kmin"], t["kmax"]), t["q"], t.get("tdep", 0), False) for _ in range(n)]
                         else:
                             return
                         if "inf_after" in t:
-                            vals = [(v if k < t["inf_after"] else INF) for k, v in enumerate(vals)]
+                            if t["fam"] == "lat":
+                                vals = [(v if k < t["inf_after"] else (v[0], v[1], v[2], True)) for k, v in enumerate(vals)]
+                            else:
+                                vals = [(v if k < t["inf_after"] else INF) for k, v in enumerate(vals)]
                         tapes[(kind, i + 1, c)] = vals
         draws = {}
         for d in R.log.draws:
             draws.setdefault(d[2], []).append(d[4])
         try:
-            M = RefSim(S, tapes, draws).run(op[1])
+            M = RefSim(S, tapes, draws).replay(self.events)
         except OutOfModel as e:
             R.counts["REF:out_of_model"] += 1
             return
+        except NotEnabled as e:
+            raise Violation(e.prop, e.clause, e.msg)
         R.counts["REF:runs_compared"] += 1
         eng = {}
         for nd in R.sim.nodes[1:]:
